@@ -70,6 +70,8 @@ class ADWIN(StreamingDetector):
             ValueError: If ``ADWIN.delta`` is not on the range 0 to 1.
         """
         super().__init__()
+        # univariate detector: the width of valid input is known up front
+        self._input_col_dim = 1
         self.delta = delta
         # Although sklearn's standard for estimators is that parameter
         # sanitization occurs with .fit, a detector might be instantiated and
